@@ -291,7 +291,7 @@ func c16Check(f c16File) (verdict string) {
 func init() {
 	fw.Register(&fw.Check{
 		ID: "C16", Level: "exploration", Shards: shards16,
-		Rule: "corpus = still and animated corpora of C17/C05, muxer outputs for every frame kind (still and animated), encoder outputs per picture x option class, and EVERY hand-assembled container over {VP8, VP8L, VP8L+alpha} x {simple, VP8X} x ALPH {absent, empty, two parities} x unknown chunk {none, before, after image} x metadata {none, ICC before, EXIF+XMP after, all} x feature flags {exact, each of alpha/ICC/EXIF/XMP over- or under-stated}; each file: the agreements of the property between Decode, DecodeConfig, GetFeatures, image.Decode(Config), mux.Demuxer, animation.DecodeBytes and the neutral parser; distinct = distinct file",
+		Rule:   "corpus = still and animated corpora of C17/C05, muxer outputs for every frame kind (still and animated), encoder outputs per picture x option class, and EVERY hand-assembled container over {VP8, VP8L, VP8L+alpha} x {simple, VP8X} x ALPH {absent, empty, two parities} x unknown chunk {none, before, after image} x metadata {none, ICC before, EXIF+XMP after, all} x feature flags {exact, each of alpha/ICC/EXIF/XMP over- or under-stated}; each file: the agreements of the property between Decode, DecodeConfig, GetFeatures, image.Decode(Config), mux.Demuxer, animation.DecodeBytes and the neutral parser; distinct = distinct file",
 		Assume: []string{"worker count pinned to 1, pools never reuse", "the neutral parser (riffwalk) defines the file's canvas, frame count, animation flag and loop count"},
 		Run: func(e *fw.Env, r *fw.Result) {
 			pin()
